@@ -56,4 +56,14 @@ func init() {
 		{Name: "off-by-one-admit", File: "cache/nemap.go", Old: "int(s.stats.Size()) < s.stats.Capacity", New: "int(s.stats.Size()) <= s.stats.Capacity", Expect: "C16-R3-bounded|NonExpiringMapCache.Put:store-insert"},
 		{Name: "clamp-removed", File: "cache/sieve.go", Old: "\tif capacity <= 0 {\n\t\tcapacity = 1\n\t}\n", New: "", Expect: "C16-R3-capacity-clamp"},
 	}
+	mutations["C13"] = []Mutation{
+		{Name: "and-polarity-flipped", File: "cardinality/roaring64.go", Old: "\t\t\tif !typedProvider.Contains(nextValue) {\n\t\t\t\tremovals.Add(nextValue)", New: "\t\t\tif typedProvider.Contains(nextValue) {\n\t\t\t\tremovals.Add(nextValue)", Expect: "C13-R2-fallback|bitmap64.And:fallback"},
+		{Name: "remove-during-iteration", File: "cardinality/roaring32.go", Old: "\t\t\tif !typedProvider.Contains(nextValue) {\n\t\t\t\tremovals.Add(nextValue)", New: "\t\t\tif !typedProvider.Contains(nextValue) {\n\t\t\t\ts.Remove(nextValue)", Expect: "C13-R1-self-iteration|bitmap32.And"},
+		{Name: "native-op-wrong", File: "cardinality/roaring64.go", Old: "\t\ts.bitmap.AndNot(typedProvider.bitmap)", New: "\t\ts.bitmap.And(typedProvider.bitmap)", Expect: "C13-R2-native-op|bitmap64.AndNot:native"},
+		{Name: "wrapper-unlocked", File: "cardinality/lock.go", Old: "func (s threadSafeDuplex[T]) Contains(value T) bool {\n\ts.lock.Lock()\n\tdefer s.lock.Unlock()\n\n", New: "func (s threadSafeDuplex[T]) Contains(value T) bool {\n", Expect: "C13-R3-wrapper|threadSafeDuplex.Contains"},
+		{Name: "wrapper-wrong-delegate", File: "cardinality/lock.go", Old: "func (s threadSafeDuplex[T]) Xor(other Provider[T]) {\n\ts.lock.Lock()\n\tdefer s.lock.Unlock()\n\n\ts.provider.Xor(other)", New: "func (s threadSafeDuplex[T]) Xor(other Provider[T]) {\n\ts.lock.Lock()\n\tdefer s.lock.Unlock()\n\n\ts.provider.Or(other)", Expect: "C13-R3-wrapper|threadSafeDuplex.Xor"},
+		{Name: "clone-unwrapped", File: "cardinality/lock.go", Old: "\treturn ThreadSafeDuplex(s.provider.Clone())", New: "\treturn s.provider.Clone()", Expect: "C13-R3-wrapper|threadSafeDuplex.Clone"},
+		{Name: "clone-shares-bitmap", File: "cardinality/roaring32.go", Old: "\t\tbitmap: s.bitmap.Clone(),", New: "\t\tbitmap: s.bitmap,", Expect: "C13-R4-clone|bitmap32.Clone"},
+		{Name: "or-fallback-dropped", File: "cardinality/roaring32.go", Old: "\t\ttypedProvider.Each(func(nextValue uint32) bool {\n\t\t\ts.Add(nextValue)\n\t\t\treturn true\n\t\t})", New: "\t\ttypedProvider.Each(func(nextValue uint32) bool {\n\t\t\treturn s.Contains(nextValue)\n\t\t})", Expect: "C13-R2-fallback|bitmap32.Or:fallback"},
+	}
 }
